@@ -291,6 +291,18 @@ def _last_segment(chk, repo, folder):
         g = [ff.norm(e) for e, p in ff.facts_at(a) if p]
         ok1 = "self.size is not None" in g
         ok2 = any(x in (ff.canon("self.pos + min(len(b), 7) >= self.size"), ff.canon("self.pos + bytes_sent >= self.size"), ff.canon("self.size <= self.pos + min(len(b), 7)")) for x in g)
+        if not ok2:
+            # decided by value: any condition over size, pos and the bytes of this segment that is true exactly when pos + bytes >= size
+            for x in g:
+                if "self.size" in x and "self.pos" in x:
+                    t_ = x.replace("min(len(b), 7)", "B_").replace("bytes_sent", "B_").replace("self.size", "S_").replace("self.pos", "P_")
+                    try:
+                        e_ = ast.parse(t_, mode="eval").body
+                        same = all(bool(folder.fold(e_, Scope(f.mod, None, {"S_": S_, "P_": P_, "B_": B_}))) == (P_ + B_ >= S_)
+                                   for S_ in range(0, 23) for P_ in range(0, S_ + 1) for B_ in range(0, 8))
+                    except Exception:  # noqa
+                        same = False
+                    ok2 = ok2 or same
         chk.check(ok1 and ok2, "R6", f"{CL}:WritableStream.write | last-segment flag when the declared size is reached", f.loc(a),
                   f"NO_MORE_DATA is set under {g}; expected `self.size is not None and self.pos + bytes_sent >= self.size`")
         # paired with _done = True in the same block
